@@ -626,3 +626,25 @@ def ctr_xor(it, st, args):
 
 
 I.synth[('$ctr', 'XORKeyStream')] = ctr_xor
+
+
+@I.reg('encoding/json.Unmarshal')
+def json_unmarshal(it, st, args, fname):
+    """json.Unmarshal(data, &s) for a *string destination and a plain quoted text (no escapes)"""
+    data, dst = args
+    v = dst.v if isinstance(dst, Iface) else None
+    t = dst.t if isinstance(dst, Iface) else ''
+    if not isinstance(v, Ptr) or not (t.endswith('*string') or t == '*string'):
+        raise Unsupported(f'encoding/json.Unmarshal into {t} (reflection not modelled)')
+    vals = it.slice_values(st, data, 'json text')
+    if len(vals) < 2 or is_sym(vals[0]) or is_sym(vals[-1]) or vals[0] != ord('"') or vals[-1] != ord('"'):
+        raise Unsupported('encoding/json.Unmarshal of a text that is not a plain quoted string')
+    for ch in vals[1:-1]:
+        if is_sym(ch):
+            unsafe = z3.Or(z3.ULT(ch, 0x20), z3.UGE(ch, 0x7f), ch == ord('"'), ch == ord('\\'))
+            if it.feasible(st.pc, unsafe):
+                raise Unsupported('encoding/json.Unmarshal of a string with a possibly escaped symbolic character')
+        elif ch < 0x20 or ch >= 0x7f or ch in (ord('"'), ord('\\')):
+            raise Unsupported('encoding/json.Unmarshal of a string with escapes')
+    it.store(st, v, Str(list(vals[1:-1])), 'json.Unmarshal:store')
+    return ret(st, None)
